@@ -173,6 +173,11 @@ type ClientOpts struct {
 	// NameResolver is neutrino.Config.NameResolver (nil = the client's default,
 	// net.LookupIP, as before).
 	NameResolver func(host string) ([]net.IP, error)
+	// BeforeStart, when set, is called with the service NewChainService
+	// returned, before Start (nil = nothing, as before): the place where an
+	// embedding application may replace the service's EXPORTED fields (e.g.
+	// wrap ChainService.BlockHeaders).
+	BeforeStart func(*neutrino.ChainService)
 }
 
 // StartClient creates and starts the real ChainService connected to the
@@ -217,6 +222,9 @@ func (w *World) StartClient(addrs []string, o ClientOpts) error {
 	w.mu.Lock()
 	w.stopped = false
 	w.mu.Unlock()
+	if o.BeforeStart != nil {
+		o.BeforeStart(svc)
+	}
 	return svc.Start(nil)
 }
 
